@@ -5,6 +5,7 @@
 // to the printed precision (10 significant digits); and print(d2) == t (fixpoint).
 // T comes from the reflective keyword grammar (mode=gen) or from the shipped decks (mode=shipped).
 #include "common/gkw.hpp"
+#include "common/gdeck.hpp"
 #include <filesystem>
 
 using namespace gkw;
@@ -20,10 +21,12 @@ static bool dclose(double a, double b) {
 }
 
 // first difference between two decks ("" if none); `cls` receives a short class of the difference
+static size_t g_firstDiffKw = 0;   // index of the keyword holding the first difference found by compareDecks
 static std::string compareDecks(const Deck& a, const Deck& b, std::string& cls) {
     std::ostringstream o;
     size_t na = a.size(), nb = b.size();
     for (size_t k = 0; k < std::min(na, nb); ++k) {
+        g_firstDiffKw = k;
         const auto& ka = a[k]; const auto& kb = b[k];
         if (ka.name() != kb.name()) { cls = "keyword-sequence"; o << "keyword #" << k << ": " << ka.name() << " vs " << kb.name(); return o.str(); }
         if (ka.size() != kb.size()) { cls = "record-count"; o << ka.name() << ": " << ka.size() << " records vs " << kb.size(); return o.str(); }
@@ -86,9 +89,11 @@ static std::string printDeck(const Deck& d) { std::ostringstream s; s << d; retu
 // so that this defect gets specific keys and everything else keeps its own:
 //   all-default-record               a record with value slots, all of them defaulted (printed as a lone " /")
 //   trailing-defaults-in-array-item  an ALL-size item whose last element(s) are defaulted, with only defaults after it
-static std::string shapeOf(const Parser& parser, const Deck& d) {
+static std::string shapeOf(const Parser& parser, const Deck& d, size_t onlyKw = std::string::npos) {
     bool allDefaultRecord = false, trailingDefaultInArray = false;
-    for (const auto& kw : d) {
+    for (size_t kwIdx = 0; kwIdx < d.size(); ++kwIdx) {
+        if (onlyKw != std::string::npos && kwIdx != onlyKw) continue;
+        const auto& kw = d[kwIdx];
         const ParserKeyword* pk = nullptr;
         if (parser.isRecognizedKeyword(kw.name())) pk = &parser.getParserKeywordFromDeckName(kw.name());
         const size_t nprec = pk ? (size_t)std::distance(pk->begin(), pk->end()) : 0;
@@ -179,6 +184,14 @@ static void checkRoundTrip(vh::Reporter& rep, Env& env, const ParseContext& pc, 
     std::string shape = shapeOf(env.parser, d);
     std::string suffix = shape.empty() ? clsOfLast : shape;
     if (threw) {
+        // "... line N": the keyword of the printed text that holds line N; the shape is taken from that keyword when it can be found
+        size_t lp = err.find(" line ");
+        if (lp != std::string::npos) {
+            const long lineNo = atol(err.c_str() + lp + 6);
+            std::istringstream is(t1); std::string ln; long n = 0; long kwSeen = -1;
+            while (std::getline(is, ln) && ++n <= lineNo) if (!ln.empty() && std::isupper((unsigned char)ln[0]) && ln.find(' ') == std::string::npos) ++kwSeen;
+            if (kwSeen >= 0 && (size_t)kwSeen < d.size() && lineNo > 0) { shape = shapeOf(env.parser, d, (size_t)kwSeen); suffix = shape.empty() ? clsOfLast : shape; }
+        }
         rep.violation("printed-deck-refused:" + suffix, "printed text of a parsed deck is refused by the parser: " + err.substr(0, 300), witness + "--- exception ---\n" + err + "\n");
         return;
     }
@@ -188,6 +201,10 @@ static void checkRoundTrip(vh::Reporter& rep, Env& env, const ParseContext& pc, 
     std::string cls;
     std::string diff = compareDecks(d, d2, cls);
     if (!diff.empty()) {
+        // the known writer defect (dropped trailing defaults) shows at the keyword that has one of its two shapes: a difference
+        // located in another keyword is something else and keeps its own key
+        shape = shapeOf(env.parser, d, std::min(g_firstDiffKw, d.size() - 1));
+        suffix = shape.empty() ? clsOfLast : shape;
         rep.violation(shape.empty() ? "print-parse-differs:" + cls + ":" + suffix : "print-parse-differs:" + shape, "parse(print(d)) differs from d: " + diff, witness + "--- first difference ---\n" + diff + "\n");
         return;
     }
@@ -229,6 +246,26 @@ int main(int argc, char** argv) {
             rep.case_done(vh::fnv(path), d.size() > 0);
             if (idx < 1) rep.sample("shipped deck " + path + " (" + std::to_string(d.size()) + " keywords)");
             checkRoundTrip(rep, env, pc, d, path, "(file " + path + ")\n", nullptr, "shipped");
+        });
+        rep.finish();
+        return 0;
+    }
+    if (mode == "models") {
+        // complete generated models (grid arrays, tables, ~70 schedule keyword kinds, UDQ expressions with '/', ACTIONX blocks, TSTEP):
+        // the whole deck goes through ONE writer object, so state the writer keeps between keywords (line wrapping, pending
+        // defaults) meets records whose layout matters (raw-string records end at the last slash of a line)
+        rep.run_cases([&](long idx, Rng& rng) {
+            gdeck::Opts o;
+            gdeck::Generator gen(rng, o);
+            const std::string base = gen.generate().text();
+            Deck d;
+            try { ErrorGuard eg; d = env.parser.parseString(base, env.strict, eg); }
+            catch (const std::exception&) { rep.count("base_refused"); return; }
+            g_touchSI = rng.chance(0.5);
+            for (const auto& kw : d) rep.cover("keyword", kw.name());
+            rep.case_done(vh::fnv(base), d.size() > 10);
+            if (idx < 1) rep.sample("generated model, " + std::to_string(d.size()) + " keywords");
+            checkRoundTrip(rep, env, env.strict, d, "generated model", base, nullptr, "model");
         });
         rep.finish();
         return 0;
